@@ -1,6 +1,7 @@
 package rules
 
 import (
+	"go/token"
 	"go/types"
 	"strings"
 
@@ -58,7 +59,8 @@ func gaugeNil(v ssa.Value, stack []frame) bool {
 func c31(r *core.Run) {
 	r.Explanation = "Decided clauses: (R1) no metering while filling a process-lifetime cache: from every cache-fill region of the checker/interpreter packages (closures run by sync.Once.Do, functions that publish through atomic.Pointer.Store/CompareAndSwap or sync.Map.Store/LoadOrStore, and the small-integer value cache) " +
 		"no metering call (common.UseMemory/UseComputation, gauge.MeterMemory/MeterComputation) is reachable within three static calls unless its gauge argument is the constant nil along the explored chain — otherwise the first execution after process start would be charged more than later ones; " +
-		"(R2) the usage constructors of common/metering.go read no package-level mutable state."
+		"(R2) the usage constructors of common/metering.go read no package-level mutable state; " +
+		"(R3) no new lazily filled cache (nil/zero-tested struct field, or map with lookup-miss fill) whose fill receives a live gauge, beyond the sites recorded from the reviewed tree."
 	r.NotDecided = "equality of metered totals across runs, caches and schedules."
 	w := r.W
 	regionPkgs := map[string]bool{"sema": true, "ast": true, "interpreter": true, "common": true, "values": true, "bbq/commons": true, "bbq/compiler": true, "bbq/vm": true}
@@ -187,4 +189,195 @@ func c31(r *core.Run) {
 		r.Check(bad == "", "R2.pure", core.SSAKey(fn), fn.Pos(), "depends only on its arguments and constants", "metering amount "+bad+": it can differ between executions")
 	}
 	r.Floor("R2.pure", 20)
+	c31LazyFills(r)
+}
+
+// isGaugeType: an interface (or named type) through which memory or computation can be metered.
+func isGaugeType(t types.Type) bool {
+	ms := types.NewMethodSet(t)
+	for i := 0; i < ms.Len(); i++ {
+		switch ms.At(i).Obj().Name() {
+		case "MeterMemory", "MeterComputation":
+			return true
+		}
+	}
+	return false
+}
+
+// c31LazyFills: R3 — lazily filled caches whose fill is metered. A value computed under a "not yet cached" test (a nil/zero
+// test of a struct field that is then assigned, or a failed lookup in a map that is then updated) and computed by a call
+// that receives a live gauge is charged only the first time; if the caching object outlives one execution (a built-in
+// function value, an enum case of a reused environment) later runs of the same program report fewer usages. Whether an
+// object is long-lived is not visible in the code of the cache, so the sites of the reviewed tree are a pinned baseline
+// (tables/c31_lazy_metered.json, all on per-execution objects) and every new site is reported.
+func c31LazyFills(r *core.Run) {
+	const rule = "R3.lazyfill"
+	w := r.W
+	got := map[string]int{}
+	liveGaugeCall := func(in ssa.Instruction) bool {
+		c, ok := in.(ssa.CallInstruction)
+		if !ok {
+			return false
+		}
+		var ops []ssa.Value
+		if c.Common().IsInvoke() {
+			ops = append(ops, c.Common().Value)
+		}
+		ops = append(ops, c.Common().Args...)
+		for _, a := range ops {
+			if cst, isConst := a.(*ssa.Const); isConst && cst.IsNil() {
+				continue
+			}
+			if isGaugeType(a.Type()) {
+				return true
+			}
+		}
+		return false
+	}
+	var all []*ssa.Function
+	var collect func(f *ssa.Function)
+	collect = func(f *ssa.Function) {
+		all = append(all, f)
+		for _, a := range f.AnonFuncs {
+			collect(a)
+		}
+	}
+	for _, fn := range w.SrcFuncs() {
+		if fn.Pkg == nil || !w.InScope(fn.Pkg.Pkg.Path()) || fn.Parent() != nil {
+			continue
+		}
+		collect(fn)
+	}
+	for _, fn := range all {
+		top := fn
+		for top.Parent() != nil {
+			top = top.Parent()
+		}
+		for _, b := range fn.Blocks {
+			if len(b.Instrs) == 0 {
+				continue
+			}
+			iff, ok := b.Instrs[len(b.Instrs)-1].(*ssa.If)
+			if !ok {
+				continue
+			}
+			cond := iff.Cond
+			neg := false
+			for {
+				if u, isNot := cond.(*ssa.UnOp); isNot && u.Op == token.NOT {
+					cond, neg = u.X, !neg
+					continue
+				}
+				break
+			}
+			// which successor is the "miss" side, and what identifies the cache
+			var miss *ssa.BasicBlock
+			cache := ""
+			var isFill func(in ssa.Instruction) bool
+			switch x := cond.(type) {
+			case *ssa.BinOp:
+				if x.Op != token.EQL && x.Op != token.NEQ {
+					continue
+				}
+				var loaded ssa.Value
+				if c, isC := x.Y.(*ssa.Const); isC && (c.IsNil() || c.Value != nil && c.Value.ExactString() == "0") {
+					loaded = x.X
+				} else if c, isC := x.X.(*ssa.Const); isC && (c.IsNil() || c.Value != nil && c.Value.ExactString() == "0") {
+					loaded = x.Y
+				}
+				if loaded == nil {
+					continue
+				}
+				ld, isLoad := loaded.(*ssa.UnOp)
+				if !isLoad || ld.Op != token.MUL {
+					continue
+				}
+				fa, isFA := ld.X.(*ssa.FieldAddr)
+				if !isFA {
+					continue
+				}
+				tn, f := structFieldOf(fa)
+				if tn == "" {
+					continue
+				}
+				cache = tn + "." + f
+				isNilSide := (x.Op == token.EQL) != neg
+				if isNilSide {
+					miss = b.Succs[0]
+				} else {
+					miss = b.Succs[1]
+				}
+				isFill = func(in ssa.Instruction) bool {
+					st, ok := in.(*ssa.Store)
+					if !ok {
+						return false
+					}
+					fa2, ok := st.Addr.(*ssa.FieldAddr)
+					if !ok {
+						return false
+					}
+					tn2, f2 := structFieldOf(fa2)
+					return tn2 == tn && f2 == f
+				}
+			case *ssa.Extract:
+				lk, isLk := x.Tuple.(*ssa.Lookup)
+				if !isLk || x.Index != 1 {
+					continue
+				}
+				if _, isMap := lk.X.Type().Underlying().(*types.Map); !isMap {
+					continue
+				}
+				cache = "map " + core.OriginLeaves(lk.X)
+				if neg {
+					miss = b.Succs[0]
+				} else {
+					miss = b.Succs[1]
+				}
+				m := lk.X
+				isFill = func(in ssa.Instruction) bool {
+					mu, ok := in.(*ssa.MapUpdate)
+					return ok && (mu.Map == m || core.OriginLeaves(mu.Map) == core.OriginLeaves(m))
+				}
+			default:
+				continue
+			}
+			if miss == nil || miss == b {
+				continue
+			}
+			filled, metered := false, false
+			for _, rb := range fn.Blocks {
+				if !miss.Dominates(rb) {
+					continue
+				}
+				for _, in := range rb.Instrs {
+					if isFill(in) {
+						filled = true
+					}
+					if liveGaugeCall(in) {
+						metered = true
+					}
+				}
+			}
+			if filled && metered {
+				got[core.SSAKey(top)+": "+cache]++
+			}
+		}
+	}
+	if genMode() {
+		genJSON(r, "c31_lazy_metered", got)
+		return
+	}
+	var base map[string]int
+	if !r.Table("c31_lazy_metered", &base) {
+		return
+	}
+	for _, k := range sortedKeys(got) {
+		if got[k] <= base[k] {
+			r.OK(rule, k, 0, "lazily filled cache of the reviewed tree (per-execution object; recorded)")
+		} else {
+			r.Bad(rule, k, 0, "a value is now cached under a not-yet-cached test and its computation receives a live gauge: the fill is metered only the first time, so a program run again in the same process / environment reports fewer usages")
+		}
+	}
+	r.OK(rule, "module-wide scan", 0, itoa(len(got))+" lazily filled caches with a metered fill")
+	r.Floor(rule, 1)
 }
